@@ -3,6 +3,7 @@
 package sm4
 
 import (
+	"encoding/binary"
 	"bytes"
 	"crypto/cipher"
 	"fmt"
@@ -549,6 +550,34 @@ func TestVerifC05(t *testing.T) {
 							}
 							if ekg != nil {
 								pool.Put(ekg)
+							}
+							// the two schedule arrays as SEPARATE objects, each against an inaccessible page (the routine takes two
+							// pointers; nothing says they are neighbours), and the kernel fed from a schedule that ends its mapping
+							var eg, dgk *hk.GBuf
+							p, msg, isFault, addr = hk.Try(func() {
+								eg, dgk = pool.Get(128, place), pool.Get(128, place)
+								expandKeyAsm(&key[0], (*uint32)(unsafe.Pointer(&eg.B[0])), (*uint32)(unsafe.Pointer(&dgk.B[0])))
+								for i := 0; i < 32; i++ {
+									if binary.LittleEndian.Uint32(eg.B[4*i:]) != enc[i] || binary.LittleEndian.Uint32(dgk.B[4*i:]) != dec[i] {
+										panic(fmt.Sprintf("schedule word %d differs", i))
+									}
+								}
+								for _, rk := range []*hk.GBuf{eg, dgk} {
+									out := make([]byte, 16*k.lanes)
+									k.f((*uint32)(unsafe.Pointer(&rk.B[0])), &out[0], &sg.B[0])
+									if rk == eg && !bytes.Equal(out, exp) {
+										panic("kernel result differs when the schedule is a separate array")
+									}
+								}
+							})
+							if p {
+								r.Violation("schedule-arrays-as-separate-objects-at-page-edge:"+k.name, hk.D{"key": hk.Hex(key), "placement": place, "panic": msg, "memory_fault": isFault, "fault_address": fmt.Sprintf("%#x", addr)})
+							}
+							if eg != nil {
+								pool.Put(eg)
+							}
+							if dgk != nil {
+								pool.Put(dgk)
 							}
 							pool.Put(sg)
 							pool.Put(dg)
